@@ -445,6 +445,10 @@ def _prog_batches(progs, tier, seed):
     for off in offs:
         jobs = []
         for p in progs:
+            # quick tier: the second choice of representatives (attribute assignment) runs on every
+            # program of <= 2 calls and on a seeded third of the longer ones
+            if tier == "quick" and off != 0 and len(p[2]) > 2 and rnd.random() > 0.34:
+                continue
             jobs.append((n, p[0], p[1], p[2], off, False))
             n += 1
         yield "off%d" % off, jobs
@@ -476,15 +480,15 @@ def check_programs(out, tier, seed, fields=None, maxlen=None):
     from concurrent.futures import ThreadPoolExecutor
     d = 3 if tier == "quick" else 4
     w = max(2, NCPU // 3)
-    with ThreadPoolExecutor(max_workers=3) as ex:
-        f1 = ex.submit(run_mc, "props", abstract_fields_for_props(), d, "fields-mc-props", w)
-        f2 = ex.submit(run_mc, "equiv", abstract_fields_for_props(), d, "fields-mc-equiv", w)
-        f3 = ex.submit(enum_programs, fields, maxlen, "fields-mc-enum", w)
-        s1, s2 = tlc.stats(f1.result()), tlc.stats(f2.result())
-        progs, s3 = f3.result()
-    out.add_cov(states=s1[1] + s2[1] + s3[1], transitions=s1[0] + s2[0] + s3[0],
-                spec_states_statements=s1[1], spec_states_equivalence=s2[1], programs_enumerated=len(progs),
-                program_depth=maxlen, fields=len(fields))
+    # the two runs that check the specification itself go on in the background while the
+    # enumerated programs are executed and validated
+    ex = ThreadPoolExecutor(max_workers=3)
+    f1 = ex.submit(run_mc, "props", abstract_fields_for_props(), d, "fields-mc-props", w)
+    f2 = ex.submit(run_mc, "equiv", abstract_fields_for_props(), d, "fields-mc-equiv", w)
+    f3 = ex.submit(enum_programs, fields, maxlen, "fields-mc-enum", w)
+    progs, s3 = f3.result()
+    out.add_cov(states=s3[1], transitions=s3[0], programs_enumerated=len(progs), program_depth=maxlen,
+                fields=len(fields))
     groups = {}
     ncases = 0
     nontrivial = set()
@@ -517,6 +521,10 @@ def check_programs(out, tier, seed, fields=None, maxlen=None):
             out.samples.append({"program": [e["k"] + ("." + e["c"] if e["k"] == "set" else "") for e in c["ev"]],
                                 "level": c["lvl"], "field": c["f"],
                                 "observed": [[e["res"], e["mark"], e["kept"]] for e in c["ev"]]})
+    s1, s2 = tlc.stats(f1.result()), tlc.stats(f2.result())      # (raise if a statement failed)
+    ex.shutdown()
+    out.add_cov(states=s1[1] + s2[1], transitions=s1[0] + s2[0], spec_states_statements=s1[1],
+                spec_states_equivalence=s2[1])
     out.add_cov(traces_validated_against_impl=ncases, program_cases=ncases,
                 programs_nontrivial=len(nontrivial))
     # try to show each group by its two-call core: the assignment, then the rejected call
@@ -555,7 +563,7 @@ def check_programs(out, tier, seed, fields=None, maxlen=None):
             what="%s: %s.%s of %r: %s at vlevel %s; %d programs, %d values of class %s" % (
                 ",".join(clauses), fd["dt"], fd["name"], fd["line"], "; ".join(calls), sorted(g["levels"]), g["n"],
                 len(g["values"]), key[2])))
-    return ncases
+    return progs
 
 
 # --------------------------------------------------------------------------
@@ -679,19 +687,22 @@ _GPROG_ALWAYS = [("set.wrongsyntax",), ("set.wrongsyntax", "str"), ("set.wrongsy
                  ("set.wrongtype", "validate"), ("set.valid", "str")]
 
 
-def check_gfa_programs(out, tier, seed):
+def check_gfa_programs(out, tier, seed, progs=None):
+    """progs: the programs TLC enumerated (MC_Fields, mode enum); those of the tag field i:xi are
+    the ones run here (xx, a comment's content and a sequence have the same value classes)."""
     rnd = random.Random(seed + 181)
-    xi = field_by_key("i:xi")
-    progs, st = enum_programs([xi], 2 if tier == "quick" else 3, "fields-mc-genum")
-    codes = sorted({p[2] for p in progs})
+    st = (0, 0)
+    if progs is None:
+        progs, st = enum_programs([field_by_key("i:xi")], 2 if tier == "quick" else 3, "fields-mc-genum")
+    codes = sorted({p[2] for p in progs if p[1] == "i:xi"})
     short = [c for c in codes if len(c) <= 2]
-    longer = [c for c in codes if len(c) > 2]
+    longer = [c for c in codes if len(c) == 3]
     jobs = []
     for docname in sorted(GDOCS):
         for path in GPATHS:
             for lvl in range(4):
                 if tier == "quick":
-                    chosen = list(_GPROG_ALWAYS) + rnd.sample(short, 3)
+                    chosen = list(_GPROG_ALWAYS) + rnd.sample(short, 2)
                 else:
                     chosen = short + rnd.sample(longer, min(len(longer), 40))
                 for k, c in enumerate(dict.fromkeys(chosen)):
@@ -863,8 +874,8 @@ def check_table():
 
 def check_c18(out, tier, seed):
     out.add_cov(table_strings_checked_against_lex=check_table())
-    check_programs(out, tier, seed)
-    check_gfa_programs(out, tier, seed)
+    progs = check_programs(out, tier, seed)
+    check_gfa_programs(out, tier, seed, progs)
     check_levels(out, tier, seed)
     out.assumptions += [
         "TLC and the TLA+ semantics of spec/Fields.tla, MC_Fields.tla, TraceFields.tla",
